@@ -588,6 +588,7 @@ type Guard struct {
 	rejSucc int
 	ctx     []ctxEdge
 	Avoid   string // non-empty: how the guard can be avoided (violation of unavoidability)
+	noAfter bool   // composed from a helper's guard that is not passed on every way through the helper
 }
 
 func (g *Guard) Key() string {
@@ -603,6 +604,9 @@ func (f *FuncFacts) ifOf(b *ssa.BasicBlock) *ssa.If {
 }
 
 func (f *FuncFacts) loopCondAtom(b *ssa.BasicBlock, iff *ssa.If, succ int) (string, bool) {
+	if rl := f.c.rotByPre(b); rl != nil && succ == 0 {
+		return f.c.eachAtom(rl.bound), true
+	}
 	body := false
 	for h, set := range f.loops {
 		if (h == b || set[b]) && set[b.Succs[succ]] && !set[b.Succs[1-succ]] {
@@ -615,6 +619,9 @@ func (f *FuncFacts) loopCondAtom(b *ssa.BasicBlock, iff *ssa.If, succ int) (stri
 	// range loops: name what is ranged over
 	switch cond := iff.Cond.(type) {
 	case *ssa.BinOp:
+		if start, ok := countdownStart(cond); ok && succ == 0 {
+			return "each(#" + f.c.term(stripConv(start)) + ")", true
+		}
 		if cond.Op == token.LEQ && succ == 0 && isInductionVar(stripConv(cond.X)) {
 			if k, ok := intConst(cond.Y); ok {
 				return "each(#" + new(big.Int).Add(k, big.NewInt(1)).String() + ")", true
@@ -680,6 +687,9 @@ func (f *FuncFacts) context(b *ssa.BasicBlock, rejEdge map[[2]int]bool) []ctxEdg
 }
 
 func (f *FuncFacts) isLoopExit(d *ssa.BasicBlock, k int) bool {
+	if k == 1 && f.c.rotByPre(d) != nil {
+		return true
+	}
 	for h, set := range f.loops {
 		if (h == d || set[d]) && !set[d.Succs[k]] && set[d.Succs[1-k]] {
 			return true
@@ -819,6 +829,9 @@ func (f *FuncFacts) phiExits(ri *retInfo, rejEdge map[[2]int]bool) []*Guard {
 		return true
 	}
 	ph := unspill(ri.ins.Results[idx], ri.blk).(*ssa.Phi)
+	if c, _ := f.c.rotExitPhi(ph); c != nil {
+		return nil
+	}
 	if !expand(ph, 0) || len(leaves) < 2 {
 		return nil
 	}
@@ -916,12 +929,19 @@ func (f *FuncFacts) computeGuards() []*Guard {
 			if !rejEdge[[2]int{b.Index, k}] {
 				continue
 			}
+			if k == 1 && f.c.rotByLatch(b) != nil {
+				continue // exhaustion of a rotated counted loop: reported once, at its pre-test
+			}
 			ctx := f.context(b, rejEdge)
 			atoms := []string{}
 			for _, c := range ctx {
 				atoms = append(atoms, c.atom)
 			}
-			atoms = append(atoms, f.c.condAtom(iff.Cond, k == 0))
+			if rl := f.c.rotByPre(b); rl != nil && k == 1 {
+				atoms = append(atoms, f.c.cmp2(token.GEQ, rl.phi, rl.bound, 0))
+			} else {
+				atoms = append(atoms, f.c.condAtom(iff.Cond, k == 0))
+			}
 			g := &Guard{Fn: funcName(f.fn), Atoms: simplifyAtoms(atoms), Code: rejCode[[2]int{b.Index, k}],
 				Pos: iff.Cond.Pos(), blk: b, rejSucc: k, ctx: ctx}
 			if !g.Pos.IsValid() {
@@ -931,8 +951,7 @@ func (f *FuncFacts) computeGuards() []*Guard {
 			out = append(out, g)
 		}
 	}
-	// unconditional failing returns that are not behind any guard edge (e.g. final "return err")
-	return out
+	return f.composeGuards(out)
 }
 
 func (f *FuncFacts) blockPos(b *ssa.BasicBlock) token.Pos {
